@@ -48,33 +48,49 @@ SPEC = dict(
          "word scores, their f32 neighbours, +-half a step, +-d, below the minimum, above the maximum, +-1e30, "
          "+-inf, NaN) and ~45 p-values probed with score and pvalue(score(p)) (grid, j/4^M, exact table entries and "
          "their f64 neighbours, 0, 1, outside [0,1], NaN). Observables: every entry of sf() as a bit pattern, "
-         "min_pvalue, every pvalue/score/round-trip result as a bit pattern, panics. PROPFAIL (extracted Coq "
-         "checkers on the implementation's observations): table non-increasing in [0,1] (exact IEEE compare); "
+         "min_pvalue, every pvalue/score/round-trip result as a bit pattern, panics. PROPFAIL = the extracted Coq "
+         "checker check_C11_fails (sound: C11.check_C11_sound) returns a failure on the implementation's observations "
+         "of a case inside the property's domain (c11_in_scope: finite non-wildcard cells, wildcard finite or -inf): "
+         "table non-increasing in [0,1] (exact IEEE compare); "
          "P(S>=s+d)*(1-2^-30)-delta <= pvalue(s) <= P(S>=s-d)*(1+2^-30)+delta with the exact tails from the "
-         "integer word table (delta = |1-(sum b)^M|, 0 for dyadic backgrounds); p-values non-increasing over all "
-         "probe pairs; pvalue(score(p)) <= p*(1+2^-30)+delta for p in (0,1). DIFF: any bit of the sf table, "
-         "min_pvalue, pvalue, score or round trip differing from the extracted binary64 model (Flocq), or a panic "
-         "on one side only. Non-trivial: distinct (matrix, background) inside the property's domain with width <= 8.",
+         "integer word table of the dyadic matrix (= tail_exact by C11_tail_dyadic_correct / C11_dyadic_values; "
+         "delta = |1-(sum b)^M|, 0 for dyadic backgrounds; skipped when scale = 0 or more than 70000 words); "
+         "p-values non-increasing over all probe pairs; pvalue(score(p)) <= p (IEEE) or <= p*(1+2^-30)+delta for p in "
+         "(0,1); or a panic of to_score_distribution/pvalue/score(p in (0,1)) inside the domain (reported by the "
+         "driver). DIFF: any bit of the sf table, min_pvalue, pvalue, score or round trip differing from the "
+         "extracted binary64 model (Flocq), or a panic on one side only. Non-trivial: distinct (matrix, background) "
+         "inside the property's domain with width <= 8.",
     trusted_base=[
         "Coq 8.16.1 kernel (coqc); vm_compute in the Example/_refuted lemmas only; no native_compute",
         "Flocq 4.1.0 (BinarySingleNaN) as the meaning of IEEE binary32/binary64 arithmetic (LMBase.IEEE)",
         "extraction: ExtrOcamlBasic only (nat, Z, positive, Q kept as extracted inductives); OCaml 4.13.1",
-        "hand-written OCaml driver ocaml/dist/driver.ml (parsing, bit-pattern comparison, choice of which probes get a "
-        "bracket check under the time budget, labelling of failures for the known-findings match)",
+        "hand-written OCaml driver ocaml/dist/driver.ml (parsing, bit-pattern comparison with the model, choice of "
+        "which probes are handed to check_C11_fails for the bracket check under the time budget, reporting of panics "
+        "inside the domain, labelling of failures for the known-findings match)",
         "Rust harness harness/src/bin/dist.rs (generator, calls of to_score_distribution/sf/pvalue/score/min_pvalue "
         "under catch_unwind, dev profile with overflow checks)",
         "std's slice::binary_search_by as read from the installed toolchain source (branch-free loop), re-validated "
         "by the bit-exact comparison of score(p) on every run",
-        "modelled, not verified: dist.rs itself (hand-written Gallina model, tied by the correspondence run); the "
-        "zip formulation of the inner k-loop (each target cell receives at most one term per symbol, so the order of "
-        "the f64 additions is the symbol order — stated as DistProofs.add_symbol_naive_eq when proved, else replayed)",
+        "the specification of probability: tail_exact / tailD (DistInst.v), the tail of a sum of independent "
+        "background-distributed symbols defined by recursion over the rows (law of total probability); proved equal "
+        "to the sum over the explicit table of all words for dyadic inputs (C11_tail_dyadic_correct)",
+        "modelled, not verified: dist.rs itself (hand-written Gallina model DistModel.v, tied by the bit-exact "
+        "correspondence run); the zip formulation of the inner k-loop (each target cell receives at most one term "
+        "per symbol, so the order of the f64 additions is the symbol order)",
     ],
     assumptions=[
-        "probabilities are exact rationals in the theorems; the binary64 table is tied to them only by the bit-exact "
-        "replay plus the stated tolerances (relative 2^-30, absolute |1-(sum b)^M|) of the correspondence run",
-        "C11_score_pvalue_roundtrip assumes scale(unscale(i)) = i for the index found (false for narrow ranges on "
-        "large offsets: known finding C11-unscale-inexact) and a background of total mass 1 on non-skipped symbols",
-        "C11_pvalue_brackets_exact assumes scale > 0 (cell range <= 1000), mass 1 on the non-skipped symbols of every "
-        "row and no i32 overflow of w*offset",
+        "the theorems are about the exact-rational instance of the model (probabilities, cells and scores are "
+        "rationals; f64::round/floor/`as i32` are exact half-away rounding, floor and saturation): the binary64 code "
+        "is tied to them only by the bit-exact replay plus the stated tolerances (relative 2^-30, absolute "
+        "|1-(sum b)^M|) of the correspondence run; IEEE rounding error of the table is modelled, not verified",
+        "C11_sf_monotone_range and C11_pvalue_monotone assume non-negative weights of total mass <= 1 (false for f32 "
+        "backgrounds whose real sum exceeds 1: known finding C11-sf-last-entry-unclipped)",
+        "C11_pvalue_brackets_exact assumes scale > 0 (cell range <= 1000; else C11-scale-zero), mass 1 on the "
+        "non-skipped symbols of every row (else F12 wildcard-mass), floor(min cell) and 1000*M inside i32 "
+        "(else C11-offset-i32)",
+        "C11_score_pvalue_roundtrip additionally has exact unscale (rational model); the f32 unscale of the code is "
+        "inexact for narrow ranges on large offsets: known finding C11-unscale-inexact",
+        "every theorem is conditional on the model returning Ok (no panic site reached); panic sites are explicit in "
+        "the model and compared with the implementation on every case",
     ],
 )
